@@ -12,8 +12,14 @@ level("C18",
             "Not proved: that evaluate never panics/hangs on well-formed positions (scoreGroups' computed index ws[Groups+w] and Dimensions' loops are guarded in the model; the theorems are stated for returned values; no panic/hang was ever observed). "
             "Game end is the model's GameOver (C02 links it to the rules)."))
 level("C19",
-      technique="Lean 4 proof (reduction) over an executable model of ai.CountThreats + differential correspondence with a one-ply search on the real code",
-      text=("Model: countThreats mirrors CountThreats (edge-adjacent gaps, two-group junctions, place map vs one-step slide map). "
-            "Every run: the four counts compared exactly; whenever the mover's count is positive at ply>=2 in an unfinished game, a one-ply search (AllMoves filtered by Move + WinDetails) on the real code and on the model "
-            "must find a road win (BOGUS on either side is a disagreement); a third judge uses the list-level rule book (Spec.step/Spec.outcome)."),
-      note="See Props/C19.lean for what is proved and which flood/group facts are named hypotheses.")
+      technique="Lean 4 proof over executable models of ai.CountThreats and Position.MovePreallocated + differential correspondence with a one-ply search on the real code",
+      text=("Proved (kernel-checked, std axioms, no extra hypotheses): threat_real — for every well-formed position (C02's WFBoard: sizes 3..8, consistent bitboards, group lists = analyze; "
+            "HeightsOK: occupied squares have height >= 1) from ply 2 on whose game is not over, a positive CountThreats count (placement or one-step slide) for the side to move yields a move m with "
+            "Pos.apply p m = ok q and WinDetails(q) = over / winner = mover / reason = road (also when the slide uncovers a road of the opponent), and a road group of the mover in q's analysis; "
+            "threat_real_search (the same as `winsByRoad`), threat_real_rulebook (RoadPath of the mover in abs q once q is a well-formed board), threatHypB_sound (the hypotheses as an executable test). "
+            "Covers exhausted flat reserves (capstone placement), walls/capstones next to the gap, own flats of the road itself (excluded by the slide map), pinned own flats on enemy stacks. "
+            "Sampled (every run): the four counts compared exactly on gap-geometry boards, junction boards, broken road walks, extremal boards and the shared random sources; whenever the mover's count is positive "
+            "a one-ply search (AllMoves filtered by Move + WinDetails) on the real code and on the model must find a road win (BOGUS on either side is a disagreement); a third judge uses the list-level rule book; "
+            "the theorem's hypotheses are evaluated on every sampled position (all satisfied)."),
+      note=("Uses the C02 development (Roads.groups_spec, groups_road_iff, analyze_ne_none) merged from the roads work package. The model of CountThreats/Move is tied to the Go code by testing, not proof. "
+            "The claim is for ply >= 2 and unfinished games (as the property says); finished/opening positions are answered `over`/`opening` and not judged. Under-counting (a win exists, count 0) is allowed and is reported in the distribution."))
